@@ -39,6 +39,9 @@
 (*     reciprocal scale factor is an intermediate whose rounding the       *)
 (*     statement does not fix: either 16.16 neighbour of 1/s is accepted   *)
 (*     (as is the correctly rounded exact quotient reverse_ij / s).        *)
+(*     When the factor matrix itself (1/s, -s, -tx) is not representable   *)
+(*     both FALSE ("overflow") and the correctly rounded exact product     *)
+(*     are accepted.                                                       *)
 (*  R5 invert, "well-conditioned": see WellCond.  Accuracy demanded there: *)
 (*     one unit ("the 16.16 resolution") from the exact rational inverse.  *)
 (*                                                                         *)
@@ -187,6 +190,7 @@ RotatePost(devs, c) ==                                        \* p = cos, q = si
             /\ c.hr => MulRel(devs, c.rin, RotMat(c.p, n, c.q), TRUE, c.rout)
        ELSE \/ c.hf /\ MulRel(devs, RotMat(c.p, c.q, n), c.fin, FALSE, c.fin)
             \/ c.hr /\ MulRel(devs, c.rin, RotMat(c.p, n, c.q), FALSE, c.rin)
+            \/ (c.hf \/ c.hr) /\ ~InWord(Neg(c.q))        \* the rotation matrix itself is not representable
 
 TranslatePost(devs, c) ==                                     \* p = tx, q = ty
     \E nx \in Negs(devs, c.p), ny \in Negs(devs, c.q) :
@@ -195,6 +199,7 @@ TranslatePost(devs, c) ==                                     \* p = tx, q = ty
             /\ c.hr => MulRel(devs, c.rin, TransMat(nx, ny), TRUE, c.rout)
        ELSE \/ c.hf /\ MulRel(devs, TransMat(c.p, c.q), c.fin, FALSE, c.fin)
             \/ c.hr /\ MulRel(devs, c.rin, TransMat(nx, ny), FALSE, c.rin)
+            \/ c.hr /\ (~InWord(Neg(c.p)) \/ ~InWord(Neg(c.q)))   \* the reverse translation is not representable
 
 -----------------------------------------------------------------------------
 (* pixman_transform_init_identity / _scale / _rotate / _translate: the matrix itself.                 *)
